@@ -471,6 +471,20 @@ def execute(case):
         res, pf, muts, argv = run(list(perms[0]), env=penv)
         if pf != base_pf or res.exit != base_res.exit:
             v.add("C15:environment", "perturbed environment changes results; argv=%s" % argv)
+        # HOME naming a directory inside the project (a build user whose home is the checkout, a container): the
+        # project files at or above each input still decide
+        hdirs = sorted({os.path.dirname(inputs[k]["root"]) for k in range(n)}, key=lambda d: (-d.count("/"), d))[:2]
+        for hd in hdirs:
+            # (a directory holding a configuration file of its own would make that file the per-user fallback of the
+            # other inputs: legitimate, and not what is asked here)
+            if not hd or any(os.path.join(hd, c) in world["files"] for c in ("rustfmt.toml", ".rustfmt.toml")) or any(f.startswith(hd + "/.config/") for f in world["files"]):
+                continue
+            res, pf, muts, argv = run(list(perms[0]), env={"HOME": "$ROOT/" + hd})
+            v.probe("home-inside-project")
+            if pf != base_pf or res.exit != base_res.exit:
+                diff = sorted(f for f in set(pf) | set(base_pf) if pf.get(f) != base_pf.get(f))
+                v.add("C15:environment|home-inside-project", "HOME=$ROOT/%s changes the results for %s (exit %s vs %s); argv=%s" % (hd, diff[:3], res.status(), base_res.status(), argv))
+                break
         # (d) stdin
         for k in range(n):
             if len(inputs[k]["files"]) == 1 and mode in ("stdout",) and inputs[k]["kind"] != "broken":
